@@ -34,6 +34,7 @@ TLedger == /\ IsEv("Ledger") /\ Step /\ UNCHANGED <<xs, sc>>
            /\ Ev.lookup = 0
            /\ Ev.interp \in 0..TolLedger /\ Ev.c1 \in 0..TolLedger /\ Ev.c2 \in 0..TolLedger
            /\ Ev.nat \in 0..TolLedger /\ Ev.lin \in 0..TolLedger /\ Ev.unit \in 0..TolLedger
+           /\ Ev.ord \in 0..TolLedger              \* the value at an abscissa does not depend on the other queries of the call or their order
 \* interpolate(xy, np, out): np rows (x, spline(x)), abscissae strictly increasing from the first to the last knot, every value the value
 \* the two-call form returns at that abscissa, the first data point reproduced, straight lines reproduced
 TInterp == /\ IsEv("Interp") /\ Step /\ UNCHANGED <<xs, sc>>
